@@ -7,9 +7,11 @@ function of the assignment (path outcomes + solver replies) only, and the invari
 VerdictIsPrecedence, OrderIndependence, ExitNonZeroIffNotAllPass, ValidNeverAbstract, OneOutputPerQuery.
 
 1. TLC checks the invariants over all assignments (<= 3 paths quick, 4 paths thorough), all solver replies, all
-   interleavings, with/without --early-exit / --cache-solver.  The faithful model violates the strict invariants
-   in exactly the ways listed as `Dev*` in the module; `VerdictModuloKnown` / `OrderIndependenceModuloKnown` show
-   there is no other way, and the MC_Verdict_f_*.cfg runs make TLC exhibit the shortest counterexamples.
+   interleavings, with/without --early-exit / --cache-solver.  The model follows the code after /repo a19e257 and
+   78a52f5: VerdictIsPrecedence, OrderIndependence and NoLostCounterexampleStrict hold.  The two behaviours repaired
+   by those commits are mutants of the model (MutPrecedence, MutNoCatch) that TLC must refute (MC_Verdict_m_*.cfg);
+   the one residual behaviour that the harness cannot force (a confirmation query cancelled in flight raising
+   OSError) is exhibited by MC_Verdict_r_killedraise.cfg and only counted in the replays.
 2. Conformance (spec -> code): behaviours enumerated (exhaustively, RecordHist) or sampled (-simulate) by TLC are
    replayed through halmos' real run_test / run_contract / _main (harness/verdict_replay.py): hand-assembled
    test contract with one arm per path, scripted stub solver (harness/stub_solver.py), the schedule forced by
@@ -40,10 +42,11 @@ from harness.common import NCPU, Check, MachineryError, cleanup, run_tlc, workdi
 
 LEVEL = "model_checking"
 
-# stable keys of the disagreements between halmos and the property (minimal scenarios)
+# stable keys of the two disagreements between halmos and the property found by this check (minimal scenarios).  Both
+# were repaired in /repo (a19e257, 78a52f5); Verdict.tla follows the repaired code and keeps the old behaviours as
+# mutants.  If either behaviour returns it is reported under its key again (controls "run_test:*" prove that on every run).
 KEY_ORDER = "early-exit-order-dependent:panic-sat_valid,stuck:early-exit"
 KEY_PRECEDENCE = "precedence-timeout-over-stuck:panic-unknown,stuck-unknown"
-KEY_SPAWN = "stuck-confirm-exception-masks-fail:panic-sat_valid,stuck-spawnfail"
 
 BATCH = 6
 JOB_TIMEOUT_S = 600.0  # one batch of 6 scenarios normally takes 5..60 s
@@ -55,7 +58,7 @@ def c05_plain(key: str) -> str:
 
 QUICK = {
     "verify": ["q3", "exit"],
-    "find": ["f_precedence", "f_order"],
+    "find": ["m_precedence", "m_nocatch", "r_killedraise"],
     "gen": {"genq": 58, "gencanonq": 24, "gencache": 8, "sim4": 22},
     "sim_num": {"sim4": 120},
     "canon_gen": "gencanonq",
@@ -66,7 +69,7 @@ QUICK = {
 }
 THOROUGH = {
     "verify": ["q2", "q3", "exit", "canon2", "canon3", "t1thr", "t3", "t3c", "t4"],
-    "find": ["f_precedence", "f_order", "f_lostcex"],
+    "find": ["m_precedence", "m_nocatch", "m_nocatch_lost", "r_killedraise", "strictlabel"],
     "gen": {"genq": 800, "gencanon2": 800, "gencache": 200, "gencache3": 150, "sim4": 1500, "gen2": 1000, "gencanon3": 500},
     "sim_num": {"sim4": 1500},
     "canon_gen": "gencanon2",
@@ -227,8 +230,7 @@ def c05_job(job: dict) -> dict:
 def c05_required_class_key(s: vr.VScn, code: int) -> str:
     k = vr.verdict_finding_key(s, code)
     return {"precedence:timeout-over-stuck": KEY_PRECEDENCE,
-            "early-exit-order-dependent:stuck-confirm-raises": KEY_ORDER,
-            "stuck-confirm-exception-masks-fail": KEY_SPAWN}.get(k, c05_plain(k))
+            "early-exit-order-dependent:stuck-confirm-raises": KEY_ORDER}.get(k, c05_plain(k))
 
 
 def run(chk: Check, tier: str):
@@ -259,21 +261,20 @@ def _run(chk: Check, tier: str, P: dict, rnd, work, pool, t_start):
     # the minimal scenarios of the known deviation classes are always replayed, in both orders where the order matters
     musts = {
         "genq": [
-            ("panic(sat_valid),stuck(unsat)", "early-exit+refinable", 1),  # callback + shutdown before the loop reaches the stuck path
-            ("panic(sat_valid),stuck(unsat)", "early-exit+refinable", 5),  # shutdown between the loop head and executor.submit
-            ("panic(sat_valid),stuck(unsat)", "refinable", 1),
-            ("panic(unknown),stuck(unknown)", "refinable", None),
-            ("stuck(unknown),panic(unknown)", "refinable", None),
-            ("revert,panic(unknown)", "refinable", None),
-            ("panic(garbage),panic(unknown)", "refinable", None),  # ERROR over TIMEOUT (control: swapped precedence)
-            ("success,panic(unknown)", "refinable", None),
+            ("panic(sat_valid),stuck(unsat)", "early-exit+refinable", 1, "X0,E1"),  # callback + shutdown before the loop reaches the stuck path
+            ("panic(sat_valid),stuck(unsat)", "early-exit+refinable", 1, "X0,K1"),  # shutdown between the loop head and executor.submit
+            ("panic(sat_valid),stuck(unsat)", "refinable", 1, None),
+            ("panic(unknown),stuck(unknown)", "refinable", 3, None),  # ERROR (stuck) over TIMEOUT
+            ("stuck(unknown),panic(unknown)", "refinable", 3, None),
+            ("revert,panic(unknown)", "refinable", None, None),
+            ("panic(garbage),panic(unknown)", "refinable", None, None),  # ERROR over TIMEOUT (control: swapped precedence)
+            ("success,panic(unknown)", "refinable", None, None),
         ],
         canon: [
-            ("panic(sat_valid),stuck(spawnfail)", "refinable", None),
-            ("success,panic(timeout)", "refinable", None),
-            ("success,panic(unsat_rc1)", "refinable", None),
-            ("success,stuck(timeout)", "refinable", None),
-            ("success,panic(sat_abstract>timeout)", "refinable", None),
+            ("success,panic(timeout)", "refinable", None, None),
+            ("success,panic(unsat_rc1)", "refinable", None, None),
+            ("success,stuck(timeout)", "refinable", None, None),
+            ("success,panic(sat_abstract>timeout)", "refinable", None, None),
         ],
     }
     all_recs: dict = {}
@@ -306,10 +307,10 @@ def _run(chk: Check, tier: str, P: dict, rnd, work, pool, t_start):
         chk.count(f"behaviours_enumerated_{n}", len(r.records))
         all_recs[n] = r.records
         picked = c05_pick(r.records, P["gen"][n], rnd, n)
-        for ak, fk, code in musts.get(n, []):
-            m = c05_find(r.records, ak, fk, code)
+        for ak, fk, code, sched in musts.get(n, []):
+            m = c05_find(r.records, ak, fk, code, sched)
             if m is None:
-                raise MachineryError(f"scenario {ak}|{fk} code={code} not among the behaviours of MC_Verdict_{n}.cfg")
+                raise MachineryError(f"scenario {ak}|{fk} code={code} schedule {sched} not among the behaviours of MC_Verdict_{n}.cfg")
             m = dict(m)
             m["tag"] = "must"
             picked.insert(0, m)
@@ -336,6 +337,16 @@ def _run(chk: Check, tier: str, P: dict, rnd, work, pool, t_start):
             if not crecs:
                 raise MachineryError("no TIMEOUT scenario for the wrapper control")
             ctrl["recs"] = crecs
+            for kind, cid, specs in (
+                ("old-precedence", 900001, [("panic(unknown),stuck(unknown)", "refinable", 3, None), ("stuck(unknown),panic(unknown)", "refinable", 3, None)]),
+                ("no-catch", 900002, [("panic(sat_valid),stuck(unsat)", "early-exit+refinable", 1, "X0,K1"), ("panic(sat_valid),stuck(unsat)", "early-exit+refinable", 1, "X0,E1")]),
+            ):
+                mrecs = [c05_find(r.records, *sp) for sp in specs]
+                if any(m is None for m in mrecs):
+                    raise MachineryError(f"scenarios for the run_test control {kind} not among the behaviours of MC_Verdict_{n}.cfg")
+                mrecs = [dict(m) for m in mrecs]
+                ctrl.setdefault("run_test", {})[kind] = (cid, mrecs)
+                feeder.add({"id": cid, "work": str(work), "scns": mrecs, "mode": "run_contract", "wrapper_mutation": kind, "prio": True}, True)
             cjob = {"id": 900000, "work": str(work), "scns": crecs, "mode": "run_contract", "wrapper_mutation": "unknown-as-unsat", "prio": True}
             ctrl["id"] = cjob["id"]
             feeder.add(cjob, True)
@@ -364,6 +375,8 @@ def _run(chk: Check, tier: str, P: dict, rnd, work, pool, t_start):
     feeder.finish(timeout=max(1800.0, budget_end - time.time() + 1800))
     results = feeder.results
     ctrl["out"] = results.pop(ctrl["id"], None)
+    for kind, (cid, mrecs) in ctrl.get("run_test", {}).items():
+        ctrl["run_test"][kind] = (results.pop(cid, None), mrecs)
     if feeder.retried:
         chk.cov["replay_batches_retried_after_worker_loss"] = len(feeder.retried)
     if feeder.lost:
@@ -440,9 +453,11 @@ def _run(chk: Check, tier: str, P: dict, rnd, work, pool, t_start):
                 chk.count(f"stuck_confirm_killed_by_shutdown_exitcode_{o['exitcode']}")
             if forced and not unforced_order:
                 by_assignment.setdefault(s.key(), []).append((s, o, rec))
-            if "conformance" in kinds:
+            if "conformance" in kinds and "property" not in kinds:
                 conformance.append((s.key(), s.sched_key(), [t for k, t in issues if k == "conformance"]))
-            if "property" in kinds and not unforced_order:
+            # (since fix e7511fd an exception out of a confirmation query killed by the early exit no longer escapes run_test:
+            # the property's verdict is required in these runs too)
+            if "property" in kinds:
                 key = c05_required_class_key(s, o["exitcode"])
                 what = (f"{s.key()} [schedule {s.sched_key()}]: halmos reports {vr.CLASS_OF[o['exitcode']]} (TestResult.exitcode "
                         f"{o['exitcode']}); the property requires {s.required}"
@@ -494,12 +509,15 @@ def _run(chk: Check, tier: str, P: dict, rnd, work, pool, t_start):
 
     phases["controls"] = round(time.time() - t_start, 1)
     # ---- 6. TLC verification results
+    # mutants of the model (the two repaired behaviours) must be refuted by the strict invariants; r_killedraise /
+    # strictlabel exhibit the residual (not forced) behaviour and the unlabelled case
     for n, f in find_f.items():
         r = f.result()
         chk.add_tlc(r)
         if r.violated is None:
-            raise MachineryError(f"TLC found no counterexample for MC_Verdict_{n}.cfg: the model no longer shows the deviation (halmos changed? update the model and the keys)")
-        chk.cov.setdefault("model_counterexamples", {})[n] = c05_trace_summary(r.stdout)
+            raise MachineryError(f"TLC found no counterexample for MC_Verdict_{n}.cfg: "
+                                 + ("negative control accepted: the invariant does not refute the mutant" if n.startswith("m_") else "the model no longer shows this behaviour"))
+        chk.cov.setdefault("model_mutants_refuted" if n.startswith("m_") else "model_expected_counterexamples", {})[n] = dict(c05_trace_summary(r.stdout), invariant=r.violated)
     never = {}
     taken: dict = {}
     for n, f in ver_f.items():
@@ -528,7 +546,8 @@ def _run(chk: Check, tier: str, P: dict, rnd, work, pool, t_start):
         "a reply 'non-zero exit' means no verdict line on stdout; 'unsat' followed by an error and exit 1 (what z3 does on halmos' get-model) counts as unsat",
         "'no path succeeded' has no label in the property text: ERROR and TIMEOUT are both accepted when a timeout is the only other defect",
         "real solver timeouts (--solver-timeout-assertion) are replayed only in sequential schedules; in the other schedules every stub is held and released by the harness (no timeout configured)",
-        "a confirmation query of a stuck path killed by an early-exit shutdown may surface as an err output or as an exception (both accepted, not forced)",
+        "a confirmation query of a stuck path IN FLIGHT when the early-exit shutdown cancels it may surface as an err output or as an OSError out of run_test (exit code 5 instead of FAIL): modelled (KilledMayRaise, MC_Verdict_r_killedraise.cfg), counted, not forced and therefore not reported",
+        "UNCONSTRAINED: a solver spawn failure is not among the property's replies; it is never scripted for a confirmation query and any non-PASS verdict would be accepted for it",
         "--solver-threads >= number of queries in the replays (the FIFO single-thread pool is model-checked only)",
     ]
 
@@ -639,6 +658,22 @@ def c05_controls(chk: Check, clean_obs: list, ctrl: dict):
     rejected["wrapper:unknown-as-unsat"] = n
     if n != len(recs):
         raise MachineryError(f"negative control accepted: from_result mapping unknown to unsat was noticed in {n} of {len(recs)} TIMEOUT scenarios")
+    # (d) halmos' run_test with one of the two repaired behaviours put back: the check must report it under the old key
+    want = {"old-precedence": (KEY_PRECEDENCE, 2), "no-catch": (KEY_ORDER, 5)}
+    for kind, (out, mrecs) in ctrl.get("run_test", {}).items():
+        if out is None or out["obs"] is None:
+            raise MachineryError(f"run_test control {kind} did not run: {out and out['exception']}")
+        key, code = want[kind]
+        hits = 0
+        for rec, o in zip(mrecs, out["obs"]):
+            s = vr.verdict_from_record(rec)
+            if any(k == "property" for k, _ in vr.verdict_compare(s, o)) and o["exitcode"] == code \
+                    and c05_required_class_key(s, o["exitcode"]) == key:
+                hits += 1
+        rejected[f"run_test:{kind}->{key}"] = hits
+        if hits == 0:
+            raise MachineryError(f"negative control accepted: run_test with the behaviour '{kind}' put back was not reported under {key}: "
+                                 f"{[(o['exitcode'], o['run_test_exc'], o['broken']) for o in out['obs']]}")
     chk.cov.setdefault("negative_controls_rejected", {}).update(rejected)
     for name, n in rejected.items():
         if n == 0:
@@ -647,6 +682,8 @@ def c05_controls(chk: Check, clean_obs: list, ctrl: dict):
 
 def replay(chk: Check, path: str):
     """bin/check C05 --replay <file>: re-run the recorded scenario(s)."""
+    # a replay is not a run of the check: its bookkeeping must not replace evidence/C05.json (Check.finish honours this)
+    os.environ.setdefault("VERIF_EVIDENCE_DIR", str(vr.VERIF / ".work" / "replay-evidence"))
     d = json.loads(open(path).read())
     recs = [d["scenario"]] if "scenario" in d else d.get("scenarios_raw", [])
     if not recs:
@@ -657,12 +694,19 @@ def replay(chk: Check, path: str):
         for rec, o in zip(recs, out["obs"]):
             s = vr.verdict_from_record(rec)
             chk.count("traces_validated_against_impl")
-            for k, t in vr.verdict_compare(s, o):
+            issues = vr.verdict_compare(s, o)
+            for k, t in issues:
                 if k == "property" and s.killed_stuck():
                     print(f"(not forced: confirmation query killed by the early-exit shutdown) {s.key()}: {t}")
                 elif k == "property":
                     chk.violation(c05_required_class_key(s, o["exitcode"]), f"{s.key()} [schedule {s.sched_key()}]: {t}", {"scenario": rec, "observation": o})
-                elif k in ("machinery", "conformance"):
-                    raise MachineryError(f"{k}: {t}")
+                elif k == "machinery":
+                    raise MachineryError(t)
+                else:
+                    # the record in the file was printed by the model of the tree it was recorded on
+                    print(f"note: differs from the recorded model behaviour ({t})")
+            if not any(k == "property" for k, _ in issues):
+                print(f"{s.key()} [schedule {s.sched_key()}]: halmos reports {vr.CLASS_OF[o['exitcode']]} (exit code {o['exitcode']}), "
+                      f"required {vr.verdict_required(s.arms)}: the property holds on this scenario")
     finally:
         cleanup(work)
